@@ -245,6 +245,10 @@ def make_worker(prop, tier, sanitize=False):
             if prop == "C03":
                 decls, text, _f, _files = prepare([(name, st)])
                 S.violation("C03.compile", "C03.compile/cc-error/%s/%s" % (cppbuild.first_error(err), coarse(st)), {"text": text, "shape": type_str(st)}, expected="compiles as C++17", actual=err[-900:])
+            elif any(h in err for h in ("dynamic.h", "reflection.h", "can_dynamic_schema.h")):
+                # the run-time codec itself does not build: there is nothing to compare, which is not agreement
+                decls, text, _f, _files = prepare([(name, st)])
+                S.violation("C13.compile", "C13.compile/run-time-schema-does-not-compile/%s/%s" % (cppbuild.first_error(err), coarse(st)), {"text": text, "shape": type_str(st)}, expected="compiles as C++17", actual=err[-900:])
         for items, exe in good:
             decls, text, fcp, _files = prepare(items)
             env = refcodec.Env(decls)
